@@ -13,6 +13,7 @@ EXPLANATION = (
 REG = c16.REG
 MGR = 'mdb_shard::shard_file_manager::ShardFileManager::'
 FLUSH = MGR + 'flush::{closure#0}'
+NEWIMPL = MGR + 'new_impl::{closure#0}'
 ADD = 'data::shard_interface::SessionShardInterface::add_cas_block'
 
 
@@ -25,6 +26,8 @@ def run(ctx):
     ctx.guarded('R11c', 'shard upload task', lambda: r11c(ctx))
     ctx.rule('R11d', 'the session shard manager resets its in-memory shard only in flush, inside the same write-guard live range in which that shard was written to disk successfully; add_cas_block records into it under the write guard')
     ctx.guarded('R11d', FLUSH, lambda: r11d(ctx))
+    ctx.rule('R11e', 'ShardFileManager::new_impl hands out a manager (cached or new) only after a successful rescan of its shard directory (refresh_shard_dir): shards that another session or process exported into the shared cache since are found')
+    ctx.guarded('R11e', NEWIMPL, lambda: r11e(ctx))
 
 
 class _Alias:
@@ -285,3 +288,22 @@ def r11d(ctx):
         ctx.check(ab.awaited(f) is not None and not gs[0].holds_at(f) and f not in gs[0].live, 'R11d', MGR + 'add_cas_block', 'flush.outside', ab.loc(f), 'the size-triggered flush runs after the guard was released (no self-deadlock) and is awaited')
         okp, d = propagation(ab, f)
         ctx.check(okp, 'R11d', MGR + 'add_cas_block', 'flush?', ab.loc(f), 'flush errors propagate: ' + d)
+
+
+def r11e(ctx):
+    """C11c: the manager cache (one manager per directory and process) is only useful for a *later* session if the
+    directory is rescanned whenever the manager is handed out."""
+    from .core import success_edges
+    a = an(ctx.F.body(NEWIMPL))
+    fn = NEWIMPL
+    refs = [r for r in a.calls(MGR + 'refresh_shard_dir') if a.awaited(r) is not None]
+    if not ctx.check(len(refs) >= 1, 'R11e', fn, 'refresh sites', '-', '%d awaited refresh_shard_dir call(s)' % len(refs), 'new_impl never rescans the shard directory'):
+        return
+    se = []
+    for r in refs:
+        se += success_edges(a, r)
+    oks = [(b, si) for (b, si, k, e) in a.ret_sites() if k == 'ok']
+    ctx.check(len(oks) >= 1, 'R11e', fn, 'Ok returns', '-', '%d Ok return(s)' % len(oks))
+    for (b, si) in oks:
+        ctx.check(bool(se) and a.cfg.must_pass(b, via_edges=se), 'R11e', fn, 'refresh<Ok', a.loc(b, si), 'the manager is returned only after refresh_shard_dir succeeded on this call',
+                  'a manager can be returned without rescanning its shard directory: shards exported into the shared cache by another session/process since the manager was cached are never found')
